@@ -2,8 +2,10 @@
    Statements only. The words themselves are the bijective base-26 numerals over A..Z (the i-th
    word has value i + 1), hence pairwise distinct -- for indices below 26^64 - 1, the fuel of the
    model's [word] (the implementation has no such bound; the model's [word] is compared with it on
-   the first 800 values). Tied but not proved here: to_annotation, random_segment. *)
-From PV Require Import Model.AnnotationOps Proofs.GeneratorsP Proofs.WordsP Check.C19.
+   the first 800 values). to_annotation labels the segments of the timeline in order with the generated
+   values, one '_' track each. Tied but not proved here: random_segment. *)
+From PV Require Import Model.AnnotationOps Proofs.SupportP Proofs.DictP Proofs.AnnotationInvP Proofs.GeneratorsP Proofs.WordsP
+  Proofs.AnnRenameTracksP Check.C19.
 
 Theorem C19_int_generator : forall n, List.length (intgen_take n) = n /\
   forall k, (k < n)%nat -> nth k (intgen_take n) (-1) = Z.of_nat k.
@@ -58,6 +60,14 @@ Theorem C19_subsegment_min_duration : forall eps s dur md k1 k2 r, 0 <= eps -> n
   st s * 1048576 <= st r /\ en r <= en s * 1048576 /\ md * 1048576 <= en r - st r <= dur * 1048576.
 Proof. exact subseg_min_inside. Qed.
 
+Theorem C19_to_annotation_uses_generated_labels_in_order : forall eps t u m g, wf eps t -> gen_ok g (List.length t) ->
+  exists r, to_annotation eps t u m g = Some r /\ AInv eps r /\
+    (forall k s, nth_error t k = Some s -> getitem r s default_track = Some (gen_fun g k)) /\
+    (forall s tr, getitem r s tr <> None -> In s t /\ tr = default_track) /\
+    skeys (a_tracks r) = t /\
+    a_uri r = u /\ a_modality r = m.
+Proof. exact to_annotation_spec. Qed.
+
 Example C19_nonvacuous :
   strgen_take 5 ["A"; "C"]%string = ["B"; "D"; "E"; "F"; "G"]%string /\
   word 26 = "AA"%string /\ word 701 = "ZZ"%string /\ word 702 = "AAA"%string /\
@@ -77,3 +87,4 @@ Print Assumptions C19_subsegment_rejects_long_duration.
 Print Assumptions C19_subsegment_min_duration.
 Print Assumptions C19_words_are_bijective_base_26.
 Print Assumptions C19_words_never_collide.
+Print Assumptions C19_to_annotation_uses_generated_labels_in_order.
